@@ -70,7 +70,7 @@ func C11(c *Ctx) {
 					// the underlying call is after the if: it is reached from both the no-flush
 					// and the flushed-ok paths; require that the error edge does not reach it
 					if !okNil {
-						q := PathQuery{From: call.(ssa.Instruction), Goal: func(i ssa.Instruction) bool { return i == u.(ssa.Instruction) }, Prune: func(from, to *ssa.BasicBlock) bool {
+						q := PathQuery{From: call.(ssa.Instruction), NonNil: map[ssa.Value]bool{e: true}, Goal: func(i ssa.Instruction) bool { return i == u.(ssa.Instruction) }, Prune: func(from, to *ssa.BasicBlock) bool {
 							f, ok := EdgeFact(from, to)
 							return ok && f.SaysNil(e)
 						}}
